@@ -4,7 +4,7 @@ import nets
 
 PID = "C03"
 THEOREMS = ["walk_topo", "sort_topo", "order_sort_topo", "rank_spec", "nnodes_spec", "loops_exact", "isvalid_iff",
-            "repair_spec", "check_topo_sound", "check_complete_sound", "gen_inflow_idxs_eq", "gen_outflow_idxs_eq", "gen_headwater_indices_eq", "gen_confluence_indices_eq"]
+            "repair_spec", "check_topo_sound", "check_complete_sound", "gen_inflow_idxs_eq", "gen_outflow_idxs_eq", "gen_headwater_indices_eq", "gen_confluence_indices_eq", "gen_rank_eq", "gen_loop_indices_eq", "gen_idxs_seq_eq"]
 RULE = ("all closed functional graphs with nodata on n<=4 cells (n<=5 thorough; cycles of every length, trees on cycles) "
         "through core.rank / idxs_seq / loop_indices / upstream_count and through Flwdir and FlwdirRaster objects with "
         "both order_cells methods, isvalid, nnodes, repair_loops; random graphs to 60 cells; orders are compared as "
